@@ -103,6 +103,7 @@ type Exec struct {
 	committedHeights int
 	// C17/C19 bookkeeping
 	probeCount int
+	internalErr string
 }
 
 func NewExec(cfg *Config) *Exec {
@@ -334,6 +335,10 @@ func (x *Exec) step(r *StepRec) {
 	}
 	x.stats.Steps++
 	x.logf("%d %s h=%d res=%s d=%s", r.Idx, r.Kind, r.Height, r.Res.Code, r.Post.Digest()[:16])
+	if len(r.Post.ParseErrs) > 0 && !x.armed["C18"] && x.internalErr == "" {
+		x.internalErr = "snapshot parse error (harness grammar vs store): " + r.Post.ParseErrs[0]
+	}
+	x.genericProbes(r)
 	// oracles read the tracker as it was before this step, then the ledgers absorb the step
 	x.runOracles(r)
 	x.tr.Apply(x, r)
@@ -446,6 +451,7 @@ func (x *Exec) doTx(op *Op) {
 		r.Height = x.H().Height()
 		r.Time = x.H().Time()
 		x.logf("%d msgfail h=%d res=%s", r.Idx, r.Height, res.Code)
+		x.stats.inc("fail_" + r.Msg.T)
 		x.runOracles(r)
 		x.cur = preTx
 	} else {
